@@ -295,9 +295,9 @@ func (x *ctx) stepMul(st Step) error {
 		B = x.tensorStd(a.B, x.tB)
 		sc := mulmod(s0, s1, x.t)
 		if siName {
-			// the *ScaleInvariant methods document op0.Scale*op1.Scale*(-Q)^-1 for every rlwe.ElementInterface operand;
-			// Mul/MulRelin (which only dispatch to them) document op0.Scale*op1.Scale
-			sc = mulmod(sc, x.negQInv(wantLvl), x.t)
+			// the *ScaleInvariant methods document op0.Scale*op1.Scale for a plaintext operand (standard tensoring) and
+			// op0.Scale*op1.Scale*(-Q)^-1 only for ciphertexts (comment corrected by the fix of finding
+			// C05:MulScaleInvariant:pt:si-doc:scale; before it the comment promised the (-Q)^-1 factor here too)
 			key = "C05:" + strings.TrimSuffix(st.Op, "New") + ":pt:si-doc" // one call site for both modes and the New form
 		}
 		wantScale = &sc
